@@ -108,6 +108,7 @@ func (language *Language) CompilerPasses() compiler.Passes {
 		&compiler.DisjunctionWithNullToOptional{},
 		&compiler.DisjunctionOfConstantsToEnum{},
 		&compiler.FlattenDisjunctions{},
+		&compiler.DisjunctionWithNullToOptional{},
 		&compiler.DisjunctionInferMapping{},
 		&compiler.RenameNumericEnumValues{},
 	}
